@@ -445,6 +445,7 @@ def run_property(pid, tier, seed, workers, only=None, quiet=False):
     nknown = 0
     harness_error = None
     unreproduced = []
+    flaky = []
     nreproduced = 0
     known_printed = set()
     for key in sorted(by_sig):
@@ -487,7 +488,10 @@ def run_property(pid, tier, seed, workers, only=None, quiet=False):
             obs = _twice()
             hist_note = " [history-dependent: reproduces only after the preceding executions recorded in the replay file]"
         if obs[0] != obs[1]:
-            harness_error = f"NONDETERMINISM: replay of {path} differs between two fresh processes: {obs}"
+            # this one counterexample does not replay identically twice (e.g. behaviour keyed on object addresses): it is not
+            # reported as a VIOLATION; the run is a harness error only if no other counterexample reproduces deterministically
+            flaky.append(f"FLAKY-REPLAY: {path} ({v['sub']}) differs between two fresh processes: {str(obs)[:300]}")
+            continue
         elif obs[0] == "[]":
             unreproduced.append(f"UNREPRODUCED: {path} ({v['sub']}) fails inside the explorer but not when replayed alone or after its recorded history")
             continue
@@ -552,9 +556,9 @@ def run_property(pid, tier, seed, workers, only=None, quiet=False):
             )
     for w in vacuous:
         print(f"VACUOUS? {w}")
-    for u in unreproduced:
+    for u in unreproduced + flaky:
         print(u)
-    if harness_error or (unreproduced and not nreproduced):
-        print(harness_error or "NONDETERMINISM: no violation of this run could be reproduced in a fresh process")
+    if harness_error or ((unreproduced or flaky) and not nreproduced):
+        print(harness_error or "NONDETERMINISM: no violation of this run could be reproduced deterministically in a fresh process")
         return 3
     return 1 if nreproduced else 0
